@@ -58,6 +58,14 @@ fn err_class(title: &str) -> String {
         "xa-eof-second".into()
     } else if t.contains("which token to suppress expansion") {
         "noexpand-eof".into()
+    } else if t.contains("while parsing a number") {
+        "eof-number".into()
+    } else if t.contains("beginning of a number") {
+        "expected-number".into()
+    } else if t.contains("expected a number in the range") {
+        "number-too-big".into()
+    } else if t.contains("expected a relation") {
+        "expected-relation".into()
     } else if t.contains("nexpected end of input") {
         "eof-other".into()
     } else {
@@ -103,6 +111,61 @@ fn run_tex(src: &str, simple_xa: bool) -> (Real, String) {
     let real = match r {
         Err(p) => Real::Panic(p),
         Ok(Ok((s, stack))) => Real::Ok { out: strip_ws(&s), stack },
+        Ok(Err(t)) => {
+            title = t.clone();
+            Real::Err(err_class(&t))
+        }
+    };
+    (real, title)
+}
+
+thread_local! {
+    /// Every character token the main loop hands over, spaces included (`run_tex_exact`).
+    static DELIVERED_CHARS: std::cell::RefCell<String> = const { std::cell::RefCell::new(String::new()) };
+}
+
+/// Handlers that record every delivered character token exactly (the script handlers merge
+/// and drop whitespace, which would hide whether the scanner consumed a terminating space).
+struct ExactHandlers;
+impl texlang::vm::Handlers<StdLibState> for ExactHandlers {
+    fn character_handler(
+        _: &mut texlang::vm::ExecutionInput<StdLibState>,
+        _: texlang::token::Token,
+        c: char,
+    ) -> texlang::prelude::Result<()> {
+        DELIVERED_CHARS.with(|d| d.borrow_mut().push(c));
+        Ok(())
+    }
+}
+
+/// Like `run_tex` (default built-ins), but the output is the exact sequence of delivered
+/// character tokens.
+fn run_tex_exact(src: &str) -> (Real, String) {
+    let mut title = String::new();
+    DELIVERED_CHARS.with(|d| d.borrow_mut().clear());
+    let r = caught(|| {
+        let mut vm = VM::<StdLibState>::new_with_built_in_commands(texlang_stdlib::built_in_commands::<StdLibState>());
+        vm.push_source("c07.tex", src).unwrap();
+        match vm.run::<ExactHandlers>() {
+            Ok(()) => {
+                let v = serde_json::to_value(&vm.state.conditional).unwrap();
+                let mut stack = String::new();
+                for b in v.get("branches").and_then(|b| b.as_array()).cloned().unwrap_or_default() {
+                    stack.push(match b.get("kind").and_then(|k| k.as_str()).unwrap_or("?") {
+                        "True" => 'T',
+                        "Else" => 'E',
+                        "Switch" => 'S',
+                        _ => '?',
+                    });
+                }
+                Ok(stack)
+            }
+            Err(e) => Err(e.error.title()),
+        }
+    });
+    let real = match r {
+        Err(p) => Real::Panic(p),
+        Ok(Ok(stack)) => Real::Ok { out: DELIVERED_CHARS.with(|d| d.borrow().clone()), stack },
         Ok(Err(t)) => {
             title = t.clone();
             Real::Err(err_class(&t))
@@ -745,6 +808,9 @@ fn render_full(fl: &[Flat], status: Option<&[bool]>, redefine: bool, tags: &mut 
                     match t.sty {
                         3 if !scoped => format!("{sign}\"{:X}", n.abs()),
                         4 if !scoped => format!("{sign}'{:o}", n.abs()),
+                        // redundant signs (TeX.2021.441): `--n`, `- -n` for n >= 0, `---|n|` for n < 0
+                        6 if n >= 0 => format!("{}{n}", if n % 2 == 0 { "--" } else { "- -" }),
+                        6 => format!("---{}", n.abs()),
                         _ => n.to_string(),
                     }
                 };
@@ -888,7 +954,8 @@ impl<'a> Gen<'a> {
     /// How the operands of a condition are written (see `render_full`).
     fn style(&mut self) -> i64 {
         match self.rng.below(16) {
-            0..=7 => 0,
+            0..=6 => 0,
+            7 => 6,
             8..=10 => 1,
             11 | 12 => {
                 if self.unterminated {
@@ -1688,6 +1755,174 @@ fn gen_xcase(rng: &mut Rng) -> XCase {
 
 // ------------------------------------------------------------------------------------------
 
+// ------------------------------------------------------------------------------------------
+// `num`: surface programs — operands as tokens (Model/C07Scan.lean)
+// ------------------------------------------------------------------------------------------
+
+const REG_TABLE: [i64; 8] = [0, 1, -1, 7, I32_MIN, I32_MAX, -3, 100];
+const NUM_PREAMBLE: &str = "\\def\\mS{ }\\countdef\\rA=11 \\rA=0 \\countdef\\rB=12 \\rB=1 \\countdef\\rC=13 \\rC=-1 \\countdef\\rD=14 \\rD=7 \\countdef\\rE=15 \\rE=-2147483647 \\advance\\rE by -1 \\countdef\\rF=16 \\rF=2147483647 \\countdef\\rG=17 \\rG=-3 \\countdef\\rH=18 \\rH=100 \\relax ";
+
+/// Surface tokens as integers (see `decUToks` in the driver) → TeX source. A space token right
+/// after a control word or another space cannot be written literally (the lexer drops it), so it
+/// is written as `\mS` (a macro whose body is one space).
+fn render_num(v: &[i64]) -> String {
+    let mut s = String::from(NUM_PREAMBLE);
+    let mut c = Cur(v);
+    let mut glue = true; // the last thing written was a control word or a space
+    while !c.0.is_empty() {
+        let cs = |s: &mut String, name: &str| {
+            s.push_str(name);
+            s.push(' ');
+        };
+        let mut next_glue = false;
+        match c.next() {
+            0 => { cs(&mut s, "\\iftrue"); next_glue = true }
+            1 => { cs(&mut s, "\\iffalse"); next_glue = true }
+            2 => { cs(&mut s, "\\ifodd"); next_glue = true }
+            3 => { cs(&mut s, "\\ifnum"); next_glue = true }
+            4 => { cs(&mut s, "\\ifcase"); next_glue = true }
+            5 => { cs(&mut s, "\\else"); next_glue = true }
+            6 => { cs(&mut s, "\\or"); next_glue = true }
+            7 => { cs(&mut s, "\\fi"); next_glue = true }
+            8 => s.push((b'0' + c.next().clamp(0, 9) as u8) as char),
+            9 => s.push('-'),
+            10 => s.push('+'),
+            11 => {
+                if glue {
+                    cs(&mut s, "\\mS");
+                } else {
+                    s.push(' ');
+                }
+                next_glue = true;
+            }
+            12 => s.push(['<', '=', '>'][c.next().clamp(0, 2) as usize]),
+            13 => { cs(&mut s, &format!("\\r{}", (b'A' + c.next().rem_euclid(8) as u8) as char)); next_glue = true }
+            14 => s.push((b'a' + c.next().rem_euclid(8) as u8) as char),
+            15 => s.push('{'),
+            16 => s.push('}'),
+            k => panic!("bad surface token {k}"),
+        }
+        glue = next_glue;
+    }
+    s.push('%');
+    s
+}
+
+fn parse_mu(reply: &str) -> Option<Real> {
+    let mut w = reply.split_ascii_whitespace();
+    match w.next() {
+        Some("ok") => {
+            let stack = w.next().unwrap_or("?").trim_start_matches('-').to_string();
+            let _groups = w.next();
+            let v: Vec<i64> = w.map(|x| x.parse().unwrap()).collect();
+            let mut c = Cur(&v);
+            let mut out = String::new();
+            while !c.0.is_empty() {
+                match c.next() {
+                    8 => out.push((b'0' + c.next() as u8) as char),
+                    9 => out.push('-'),
+                    10 => out.push('+'),
+                    11 => out.push(' '),
+                    12 => out.push(['<', '=', '>'][c.next() as usize]),
+                    14 => out.push((b'a' + c.next().rem_euclid(8) as u8) as char),
+                    15 | 16 => {}
+                    13 => {
+                        c.next();
+                    }
+                    _ => {}
+                }
+            }
+            Some(Real::Ok { out, stack })
+        }
+        Some("err") => match w.next().unwrap_or("?") {
+            "unmodelled" => None,
+            "eof-case" | "eof-or" => Some(Real::Err("eof-case-or".into())),
+            e => Some(Real::Err(e.into())),
+        },
+        _ => panic!("driver reply malformed: {reply}"),
+    }
+}
+
+/// A number as surface tokens, with the liberties the scanner allows.
+fn num_toks(rng: &mut Rng, n: i64, out: &mut Vec<i64>) {
+    for _ in 0..rng.below(3) {
+        if rng.chance(1, 3) {
+            out.push(*rng.pick(&[11, 10])); // leading space / plus
+        }
+    }
+    let reg = REG_TABLE.iter().position(|v| *v == n);
+    if n == I32_MIN || (reg.is_some() && rng.chance(1, 3)) {
+        out.extend([13, reg.unwrap() as i64]);
+        return;
+    }
+    if n < 0 {
+        out.push(9);
+    } else if rng.chance(1, 12) {
+        out.extend([9, 9]); // two minus signs cancel
+    }
+    let digits: Vec<i64> = n.abs().to_string().bytes().map(|b| (b - b'0') as i64).collect();
+    if rng.chance(1, 10) {
+        // the digits come out of a conditional that is expanded while the number is scanned
+        out.extend([2, 8, 1, 11]);
+        for d in &digits {
+            out.extend([8, *d]);
+        }
+        out.extend([5, 8, 0, 7]);
+    } else {
+        if rng.chance(1, 8) {
+            out.extend([8, 0]); // leading zero
+        }
+        for d in &digits {
+            out.extend([8, *d]);
+        }
+    }
+}
+
+fn surface_of(rng: &mut Rng, fl: &[Flat]) -> Vec<i64> {
+    let mut v = vec![];
+    for f in fl {
+        match f {
+            Flat::Plain(-1) => v.push(15),
+            Flat::Plain(-2) => v.push(16),
+            Flat::Plain(n) => v.extend([14, n.rem_euclid(8)]),
+            Flat::Else(_) => v.push(5),
+            Flat::Or(_) => v.push(6),
+            Flat::Fi(_) => v.push(7),
+            Flat::If(t) => {
+                let term = |rng: &mut Rng, v: &mut Vec<i64>| match rng.below(8) {
+                    0 | 1 => {}                 // no terminator: whatever follows ends the number
+                    2 => v.extend([11, 11]),    // two spaces (the second one is delivered)
+                    _ => v.push(11),
+                };
+                match t.kind {
+                    0 => v.push(0),
+                    1 => v.push(1),
+                    2 | 4 => {
+                        v.push(if t.kind == 2 { 2 } else { 4 });
+                        num_toks(rng, t.ops[0], &mut v);
+                        if v[v.len() - 2] != 13 {
+                            term(rng, &mut v);
+                        }
+                    }
+                    _ => {
+                        v.push(3);
+                        num_toks(rng, t.ops[0], &mut v);
+                        if rng.chance(1, 3) {
+                            v.push(11);
+                        }
+                        v.extend([12, t.ops[1]]);
+                        num_toks(rng, t.ops[2], &mut v);
+                        if v[v.len() - 2] != 13 {
+                            term(rng, &mut v);
+                        }
+                    }
+                }
+            }
+        }
+    }
+    v
+}
+
 struct C07;
 
 impl C07 {
@@ -1723,7 +1958,7 @@ impl C07 {
                         out.tag("cond:alias-if");
                     }
                     if t.kind >= 2 {
-                        out.tag(["cond:operand decimal+space", "cond:register-operand", "cond:operand without terminator", "cond:operand hexadecimal", "cond:operand octal", "cond:operand with macro spaces"][t.sty.clamp(0, 5) as usize]);
+                        out.tag(["cond:operand decimal+space", "cond:register-operand", "cond:operand without terminator", "cond:operand hexadecimal", "cond:operand octal", "cond:operand with macro spaces", "cond:operand with redundant signs"][t.sty.clamp(0, 6) as usize]);
                     }
                     if t.kind == 2 && t.ops[0] < 0 && t.ops[0] % 2 != 0 {
                         out.tag("cond:ifodd-negative-odd");
@@ -1846,6 +2081,9 @@ impl C07 {
         }
         let m = parse_m(parts[0], redefine);
         let m_pre = parse_m(parts[1], redefine);
+        if !redefine {
+            self.run_surface(ints, parts[0], drv, out);
+        }
         let src = render(&fl, redefine);
         let (i, title) = run_tex(&src, false);
         match &i {
@@ -1873,6 +2111,99 @@ impl C07 {
                     }
                 }
             }
+        }
+    }
+
+    /// Ties `surfaceAll` / `surfaceL ∘ loosen` (theorems `operands_terminated`, `operands_loose`) to
+    /// the code: the abstract program, written out by Lean with decimal operands (terminated, and
+    /// as loosely as the code allows), run on the real code, must give what the *abstract* model
+    /// gives for the abstract program.
+    fn run_surface(&mut self, ints: &[i64], m_reply: &str, drv: &mut Driver, out: &mut CaseOutcome) {
+        let reply = drv.ask(&format!("surf {}", join(ints)));
+        if reply.trim() == "none" {
+            out.tag("surf:operand not a decimal constant (skipped)");
+            return;
+        }
+        // the abstract model's outcome with the `num` rendering of delivered tokens
+        let m = {
+            let mut w = m_reply.split_ascii_whitespace();
+            match w.next() {
+                Some("ok") => {
+                    let stack = w.next().unwrap_or("?").trim_start_matches('-').to_string();
+                    let _ = w.next();
+                    let out: String = w.map(|x| x.parse::<i64>().unwrap()).filter(|c| *c >= 0).map(|c| (b'a' + c.rem_euclid(8) as u8) as char).collect();
+                    Real::Ok { out, stack }
+                }
+                Some("err") => Real::Err(match w.next().unwrap_or("?") {
+                    "eof-case" | "eof-or" => "eof-case-or".into(),
+                    e => e.into(),
+                }),
+                _ => panic!("driver reply malformed: {m_reply}"),
+            }
+        };
+        for (which, toks) in reply.split('|').map(|s| s.trim()).enumerate() {
+            let v = if toks.is_empty() { vec![] } else { parse_i64s(toks) };
+            let src = render_num(&v);
+            // exact delivered characters: every space of a written-out program is a terminator the
+            // scanner must consume, so no space may come out
+            let (i, title) = run_tex_exact(&src);
+            let name = ["surfaceL (loose)", "surfaceAll (terminated)"][which.min(1)];
+            if v.len() != ints.len() {
+                out.tag(format!("surf:{name} program with operands written out"));
+            }
+            if let Real::Panic(p) = &i {
+                out.fail(Kind::ImplPanic, "surf", Self::classify_panic(p), format!("tex: {src}\npanic: {p}"));
+            } else if i != m {
+                out.fail(
+                    Kind::ImplVsModel,
+                    "surf",
+                    format!("surf: {name} program differs from the abstract model"),
+                    format!("tex: {src}\nimpl: {i:?} {title}\nabstract model: {m:?}"),
+                );
+            }
+        }
+    }
+
+    fn run_num(&mut self, ints: &[i64], drv: &mut Driver, out: &mut CaseOutcome) {
+        out.nontrivial = ints.iter().any(|x| (2..=4).contains(x));
+        let reply = drv.ask(&format!("num {}", join(ints)));
+        let parts: Vec<&str> = reply.split('|').map(|s| s.trim()).collect();
+        if parts.len() != 3 {
+            panic!("driver reply malformed: {reply}");
+        }
+        let never_closes = parts[2] == "nc=1";
+        let (Some(m), Some(tex)) = (parse_mu(parts[0]), parse_mu(parts[1])) else {
+            out.tag("num:unmodelled (register token reaches the main loop), skipped");
+            return;
+        };
+        let src = render_num(ints);
+        let (i, title) = run_tex_exact(&src);
+        match &i {
+            Real::Ok { stack, .. } => out.tag(format!("num:ok:stack{}", stack.len().min(3))),
+            Real::Err(e) => out.tag(format!("num:err:{e}")),
+            Real::Panic(_) => out.tag("num:panic"),
+        }
+        out.tag(if m == tex { "num:code model = TeX rule" } else { "num:code model != TeX rule (conditional closed while its operand is scanned)" });
+        let detail = format!("tex: {src}\nimpl: {i:?} {title}\nmodel (code): {m:?}\nmodel (TeX.2021.510 rule): {tex:?}");
+        if never_closes && m != tex {
+            // impossible while theorem c07i_exact_boundary_run holds
+            out.fail(Kind::ModelVsSpec, "num", "num: code model and TeX rule differ although no conditional is closed while scanning", detail.clone());
+        }
+        out.tag(if never_closes { "num:never closes while scanning" } else { "num:a conditional is closed while its operand is scanned" });
+        if let Real::Panic(p) = &i {
+            out.fail(Kind::ImplPanic, "num", Self::classify_panic(p), detail);
+            return;
+        }
+        if i != m {
+            let cls = |r: &Real| match r {
+                Real::Ok { .. } => "ok".to_string(),
+                Real::Err(e) => e.clone(),
+                Real::Panic(_) => "panic".into(),
+            };
+            out.fail(Kind::ImplVsModel, "num", format!("num: impl {} / model {}", cls(&i), cls(&m)), detail);
+        } else if m != tex {
+            // the code and its model agree, TeX's rule says otherwise: finding C07-i
+            out.fail(Kind::ImplVsSpec, "num", SIG_UNTERMINATED, detail);
         }
     }
 
@@ -2027,7 +2358,7 @@ impl Property for C07 {
          tok: every token list of length <= 3 (quick) / 4 (thorough) over {iftrue,iffalse,ifcase 0/1/2,else,or,fi,a,{,}} and random mutations (drop/insert/swap) of flattened trees; \
          every conditional token is written as the primitive, a control-sequence \\let alias or one of two active characters (\\catcode 13, 16 in all) \\let to it, in selected and skipped text at every depth; three more active characters (\\let to \\fi then redefined as a macro, \\let to \\relax, \\let to a letter) are plain tokens that must not count; \
          condS (half as many again): the same trees with scoped alias histories — before the tree and inside selected text, random `{`, `}`, local and \\global \\let/\\def that move ten names (3 control sequences, 2 active characters, the primitive names \\else \\fi \\or \\iftrue \\ifodd) between the eight conditional meanings, an empty macro and \\relax; the harness tracks the current meaning of every name with TeX's grouping, writes conditional tokens through names that currently carry the meaning (static aliases when the primitive's own name is reassigned) and sprinkles names that currently carry no class into selected and skipped text; \
-         operands are written as decimal + space, \\count register, decimal WITHOUT terminating space (a quarter of the cases; known finding C07-i), hexadecimal, octal, or with spaces produced by a macro around the relation / before the number; \
+         operands are written as decimal + space, \\count register, decimal WITHOUT terminating space (a quarter of the cases; known finding C07-i), hexadecimal, octal, with spaces produced by a macro around the relation / before the number, or with redundant minus signs; \
          a third of the cond/condR/condS cases (`cond+<seed>`) moves up to three random token ranges that start in executed text into macro bodies or through a macro argument (they may run into skipped text and cut conditionals in pieces); \
          xa: random streams of 0..24 tokens over \\expandafter, two \\let aliases of it, \\noexpand, 0..4 macros with 0..2 parameters (terminating by construction), \\iftrue, \\fi, \\relax, letters; both EOF positions; \
          xah (3/5 of the xa budget): the same after a random VM history of 1..10 operations (\\toks assignments and overwrites of 0..200 tokens, local and \\global, groups that save/restore them, \\the\\toks, macro calls without/with one braced/with two arguments, \\def with long bodies, nested conditionals, \\expandafter chains) whose own output the harness predicts. \
@@ -2252,6 +2583,64 @@ impl Property for C07 {
             }
             v.push(format!("{} {}", if r.chance(1, 2) { "tokR" } else { "tok" }, join(&enc_flat(&fl))).trim_end().to_string());
         }
+        // num: operands as tokens. Exhaustive small scope, then loosely written trees and mutations
+        {
+            let alpha: Vec<Vec<i64>> = vec![
+                vec![2], vec![3], vec![4], vec![0], vec![1], vec![5], vec![6], vec![7],
+                vec![8, 1], vec![8, 2], vec![9], vec![11], vec![12, 0], vec![14, 0], vec![13, 3],
+            ];
+            let max_len = if ctx.thorough { 4 } else { 3 };
+            for len in 1..=max_len {
+                let mut idx = vec![0usize; len];
+                loop {
+                    let toks: Vec<i64> = idx.iter().flat_map(|i| alpha[*i].clone()).collect();
+                    v.push(format!("num {}", join(&toks)));
+                    let mut k = 0;
+                    while k < len {
+                        idx[k] += 1;
+                        if idx[k] < alpha.len() {
+                            break;
+                        }
+                        idx[k] = 0;
+                        k += 1;
+                    }
+                    if k == len {
+                        break;
+                    }
+                }
+            }
+            let mut r = rng.fork();
+            let n_num = if ctx.thorough { 30_000 } else { 3_000 };
+            for i in 0..n_num {
+                let depth = (i % 5) as u32;
+                let mut g = Gen { rng: &mut r, budget: 30 + 20 * depth as i64, scoped: false, unterminated: false };
+                let items = g.text(depth, true);
+                let mut fl = vec![];
+                flatten(&items, &mut fl);
+                let mut toks = surface_of(&mut r, &fl);
+                if r.chance(1, 3) {
+                    // mutate: drop / insert a token (digits, signs, spaces, relations, conditionals)
+                    let ins: [&[i64]; 10] = [&[8, 9], &[8, 0], &[9], &[10], &[11], &[12, 1], &[7], &[5], &[2], &[13, 5]];
+                    let mut units: Vec<Vec<i64>> = vec![];
+                    let mut c = Cur(&toks);
+                    while !c.0.is_empty() {
+                        let t = c.next();
+                        units.push(if matches!(t, 8 | 12 | 13 | 14) { vec![t, c.next()] } else { vec![t] });
+                    }
+                    for _ in 0..1 + r.below(2) {
+                        if r.chance(1, 2) && !units.is_empty() {
+                            let k = r.below(units.len() as u64) as usize;
+                            units.remove(k);
+                        } else {
+                            let k = r.below(units.len() as u64 + 1) as usize;
+                            units.insert(k, r.pick(&ins).to_vec());
+                        }
+                    }
+                    toks = units.concat();
+                }
+                v.push(format!("num {}", join(&toks)).trim_end().to_string());
+            }
+        }
         // xa
         let mut r = rng.fork();
         for i in 0..n_xa {
@@ -2281,6 +2670,7 @@ impl Property for C07 {
             "cond" | "condR" => self.run_cond(cmd == "condR", false, &parse_i64s(rest), drv, &mut out),
             "condS" => self.run_cond(false, true, &parse_i64s(rest), drv, &mut out),
             "tok" | "tokR" => self.run_tok(cmd == "tokR", &parse_i64s(rest), drv, &mut out),
+            "num" => self.run_num(&parse_i64s(rest), drv, &mut out),
             "xa" => self.run_xa(&parse_i64s(rest), &[], drv, &mut out),
             "xah" => {
                 // `xah <H> <H history ints> <xa case>`
@@ -2318,6 +2708,24 @@ impl Property for C07 {
                 }
                 if cmd == "condR" {
                     c.push(format!("cond {rest}"));
+                }
+            }
+            "num" => {
+                let toks = parse_i64s(rest);
+                let mut units: Vec<Vec<i64>> = vec![];
+                let mut cu = Cur(&toks);
+                while !cu.0.is_empty() {
+                    let t = cu.next();
+                    units.push(if matches!(t, 8 | 12 | 13 | 14) { vec![t, cu.next()] } else { vec![t] });
+                }
+                if units.len() > 1 {
+                    c.push(format!("num {}", join(&units[..units.len() / 2].concat())));
+                    c.push(format!("num {}", join(&units[units.len() / 2..].concat())));
+                }
+                for i in 0..units.len() {
+                    let mut o = units.clone();
+                    o.remove(i);
+                    c.push(format!("num {}", join(&o.concat())).trim_end().to_string());
                 }
             }
             "tok" | "tokR" => {
